@@ -5,7 +5,7 @@
 //! of a protocol-respecting history. In every state reached with <= 2 calls every non-destroy
 //! function is additionally called with each pointer parameter NULL.
 
-use super::c17::{op_class, path_to_ops, run_history, transition_paths};
+use super::c17::{machine_histories, op_class, path_to_ops, run_history, transition_paths};
 use super::common::Verdict;
 use crate::engine::isolate::{run_job, ChildCtx, Job};
 use crate::engine::{guarded, Local, Run, Tier};
@@ -41,18 +41,33 @@ fn paths_for(job: &str, tier: Tier) -> Vec<Vec<usize>> {
     match job {
         "paths" => transition_paths(depth_for(tier), 3_000_000).0,
         "nulls" => transition_paths(null_state_depth() + 1, 3_000_000).1,
+        "machines-quick" => (0..machine_histories(Tier::Quick).len()).map(|i| vec![i]).collect(),
+        "machines-thorough" => (0..machine_histories(Tier::Thorough).len()).map(|i| vec![i]).collect(),
         other => crate::engine::machinery(&format!("C18: unknown job {other}")),
     }
+}
+
+fn ops_of(job: &str, path: &[usize]) -> Vec<Op> {
+    thread_local! {
+        static MH: std::cell::RefCell<std::collections::BTreeMap<String, std::rc::Rc<Vec<(String, Vec<Op>)>>>> = std::cell::RefCell::new(Default::default());
+    }
+    if job.starts_with("machines") {
+        let tier = if job.ends_with("thorough") { Tier::Thorough } else { Tier::Quick };
+        let all = MH.with(|m| m.borrow_mut().entry(job.to_string()).or_insert_with(|| std::rc::Rc::new(machine_histories(tier))).clone());
+        return all[path[0]].1.clone();
+    }
+    path_to_ops(path).expect("path")
 }
 
 fn run_path(job: &str, path: &[usize], local: &mut Local, check_leaks_now: bool, step: bool, ordinal: u64) {
     local.eval();
     local.transitions += 1;
     local.traces += 1;
-    let ops = path_to_ops(path).expect("path");
+    let ops = ops_of(job, path);
     let case = json!({"job": job, "path": path, "ops": ops.iter().map(|o| format!("{o:?}")).collect::<Vec<_>>()});
-    if job == "paths" {
-        match guarded(|| run_history(&ops, false)) {
+    if job == "paths" || job.starts_with("machines") {
+        // machines: every live handle inspected with every getter after every step
+        match guarded(|| run_history(&ops, job != "paths")) {
             Ok(Ok(_)) => local.outcome("ok"),
             Ok(Err((i, e))) => local.fail(&format!("capi:{}", op_class(&ops[i])), case.clone(), e),
             Err(p) => local.fail(&format!("panic:{}", op_class(ops.last().unwrap())), case.clone(), p),
@@ -157,7 +172,7 @@ fn asan_env() -> Vec<(String, String)> {
 pub fn run(tier: Tier) -> i32 {
     let mut run = Run::new("C18", tier, "model_checking");
     let depth = depth_for(tier);
-    run.rule = format!("the C17 search (same pool model, same operation alphabet) to depth {depth}, every transition executed by the AddressSanitizer build of the harness (leak detection on) in child processes; each history ends with the protocol's clean-up (every live handle, filter and returned string destroyed exactly once); a LeakSanitizer pass runs after each history in single-step mode and at process exit otherwise. Plus: in every state reached with <= {} calls, every non-destroy function (18 predicates, 29 getters, 24 checked constructors, 11 mutators / out-parameter getters, 3 filter functions) is called with each pointer parameter NULL, one at a time and all together, with every live handle as the non-null argument: documented sentinel + error pending + pool unchanged + no crash", null_state_depth());
+    run.rule = format!("the C17 search (same pool model, same operation alphabet) to depth {depth}, every transition executed by the AddressSanitizer build of the harness (leak detection on) in child processes; each history ends with the protocol's clean-up (every live handle, filter and returned string destroyed exactly once); a LeakSanitizer pass runs after each history in single-step mode and at process exit otherwise. Plus the focused machines of C17 (list, dict, grid with indices 0..4, eight key shapes, aliasing of input and output handles, exotic values with interior NUL / 210 kB strings / extreme fields) under the same monitors. Plus: in every state reached with <= {} calls, every non-destroy function (18 predicates, 29 getters, 24 checked constructors, 11 mutators / out-parameter getters, 3 filter functions) is called with each pointer parameter NULL, one at a time and all together, with every live handle as the non-null argument: documented sentinel + error pending + pool unchanged + no crash", null_state_depth());
     run.assume("AddressSanitizer / LeakSanitizer are the monitors of each explored history (std is not instrumented; allocator interposition still sees the crate's heap misuse)");
     run.assume("a panic inside an extern \"C\" function aborts the process and is observed through the child's exit status");
     crate::engine::quiet_panics();
@@ -165,13 +180,14 @@ pub fn run(tier: Tier) -> i32 {
     if !std::path::Path::new(&exe).exists() {
         crate::engine::machinery(&format!("AddressSanitizer build missing: {exe} (the check script builds it)"));
     }
-    for job in ["paths", "nulls"] {
+    let mjob = format!("machines-{}", tier.name());
+    for job in ["paths", "nulls", mjob.as_str()] {
         let paths = paths_for(job, tier);
         let n = paths.len() as u64;
         run.note(&format!("job_{job}_cases"), json!(n));
         let describe = |ord: u64| -> J {
             let p = &paths[ord as usize];
-            json!({"job": job, "path": p, "ops": path_to_ops(p).map(|o| o.iter().map(|x| format!("{x:?}")).collect::<Vec<_>>())})
+            json!({"job": job, "path": p, "ops": ops_of(job, p).iter().map(|x| format!("{x:?}")).collect::<Vec<_>>()})
         };
         let chunk = (n / 32).max(64);
         let j = Job { prop: "C18", tier: tier.name(), job, n, chunk, env: asan_env(), exe: Some(exe.clone()), describe: &describe };
